@@ -336,6 +336,7 @@ outerReadLoop:
 					close(closing)
 					return
 				}
+				verifAt("ws.readerForward", ws)
 				select {
 				case clientInputs <- buf:
 				case <-done:
@@ -347,6 +348,7 @@ outerReadLoop:
 		for {
 			select {
 			case <-closing:
+				verifAt("ws.writerRelease", ws)
 				close(done)
 				break outerReadLoop
 			case reply, ok := <-outChan:
@@ -354,6 +356,7 @@ outerReadLoop:
 					ws.WriteControl(websocket.CloseMessage,
 						websocket.FormatCloseMessage(websocket.CloseNormalClosure, "service finished streaming"),
 						time.Now().Add(time.Millisecond*500))
+					verifAt("ws.writerRelease", ws)
 					close(done)
 					return
 				}
